@@ -335,7 +335,7 @@ func c10(c *hx.Ctx) int {
 		return c10worker(c)
 	}
 	if c.Quick() {
-		c.Budget = 300 * second
+		c.Budget = 420 * second
 	} else {
 		c.Budget = 2400 * second
 	}
